@@ -280,14 +280,16 @@ func sites() []site {
 		}})
 
 	// --- XR composing a resource with a name the function asks for; XR connection secret ---
-	for _, mode := range []string{"pipeline", "pt"} {
+	// mode "pipeline-plainref": the function's desired resource already lists the XR among its owner
+	// references, explicitly as a NON-controlling owner (controller: false)
+	for _, mode := range []string{"pipeline", "pt", "pipeline-plainref"} {
 		mode := mode
 		out = append(out, site{name: "xr-" + mode + "-named-resource-and-secret", actors: map[string]bool{"xr": true},
 			setup: func(w *sim.World, r *siteRng) {
 				d := xrd(r.suffix, false)
 				w.MustSeed("user", d)
 				g := "ex" + r.suffix + ".org"
-				if mode == "pipeline" {
+				if mode != "pt" {
 					for _, o := range xrk.FunctionObjects("fn-0", fnServer.Addr) {
 						w.MustSeedFull("pkg", o)
 					}
@@ -312,6 +314,11 @@ func sites() []site {
 						ds := &fnv1.State{Resources: map[string]*fnv1.Resource{}, Composite: &fnv1.Resource{ConnectionDetails: map[string][]byte{"k": []byte("v")}, Ready: fnv1.Ready_READY_TRUE}}
 						m := nopObj("NopA", "1")
 						m["metadata"] = map[string]any{"name": "fixed-name" + sfx}
+						if mode == "pipeline-plainref" {
+							oxr := req.GetObserved().GetComposite().GetResource().AsMap()
+							md, _ := oxr["metadata"].(map[string]any)
+							m["metadata"].(map[string]any)["ownerReferences"] = []any{map[string]any{"apiVersion": oxr["apiVersion"], "kind": oxr["kind"], "name": md["name"], "uid": md["uid"], "controller": false, "blockOwnerDeletion": false}}
+						}
 						s, _ := structpb.NewStruct(m)
 						ds.Resources["a"] = &fnv1.Resource{Resource: s, Ready: fnv1.Ready_READY_TRUE}
 						return &fnv1.RunFunctionResponse{Desired: ds}, nil
